@@ -120,6 +120,11 @@ class TCtl(IOQController):
             self.complete_io(iocb, "sync")
 
 
+class NotApplicable(Exception):
+    """a call prescribed by a walk of the model has nothing to act on in the real state (no such timer / deferred call):
+    the implementation left the model at an earlier step; the history ends here"""
+
+
 class Rig:
     """real objects driven by the operations of IOCB.tla; layout = (B, C, G): object numbers 1..N"""
 
@@ -163,7 +168,7 @@ class Rig:
         another due timer must find it there); deferred calls are NOT drained"""
         tm = vt.tm
         if entry is None or entry[0] > vt.now:
-            raise AssertionError("task not due")
+            raise NotApplicable("no such task is due")
         i = [k for k, e in enumerate(tm.tasks) if e is entry][0]
         tm.tasks[i] = (float("-inf"), entry[1], entry[2])
         heapq.heapify(tm.tasks)
@@ -195,8 +200,10 @@ class Rig:
                 elif op == "timeout":
                     o.set_timeout(a * UNIT)
                 elif op == "fire":
-                    self.run_task(self.entry_of(o.ioTimeout))
+                    self.run_task(self.entry_of(o.ioTimeout) if o.ioTimeout is not None else None)
                 elif op == "trigger":
+                    if not core.deferredFns:
+                        raise NotApplicable("no deferred call is outstanding")
                     fn, args, kw = core.deferredFns.pop(0)
                     fn(*args, **kw)
                 elif op == "wfire":
@@ -224,7 +231,7 @@ class Rig:
                     self.ids[id(c)] = x
                 else:
                     raise AssertionError(op)
-        except AssertionError:
+        except (AssertionError, NotApplicable):
             raise
         except Exception as e:
             self.exc = type(e).__name__
@@ -280,14 +287,19 @@ def run_history(layout, prio, kind, wait, ops=None, pick=None, n=0):
             break
         op = ops[k] if pick is None else pick(rig, s)
         op = tuple(op) + (0,) * (4 - len(op))
-        done_ops.append(list(op))
         try:
+            if rig.objs.get(op[1], True) is None and op[0] != "chain":
+                raise NotApplicable("the object does not exist")
             rig.apply(*op)
+        except NotApplicable:
+            break
         except Hang:
+            done_ops.append(list(op))
             HANGS[0] += 1
             evs.append({"op": op[0], "x": op[1], "a": op[2], "b": op[3], "hang": True})
             vt.reset(0.0)
             break
+        done_ops.append(list(op))
         s = rig.proj()
         evs.append({"op": op[0], "x": op[1], "a": op[2], "b": op[3], "s": s})
     return evs, done_ops, s0
@@ -513,7 +525,7 @@ def exec_walk(job):
     tid, h = job
     evs, ops, s0 = run_history(h["layout"], h["prio"], h["kind"], h["wait"], h["ops"])
     return {"tid": tid, "layout": h["layout"], "prio": h["prio"], "kind": h["kind"], "wait": h["wait"], "evs": evs, "ops": ops,
-            "s0": s0}
+            "s0": s0, "cut": h["ops"][len(ops)] if len(ops) < len(h["ops"]) and not (evs and evs[-1].get("hang")) else None}
 
 
 # ---- what the tree under test does on the six named axes (only the conformance side of the validation uses it) ----------------
@@ -754,6 +766,10 @@ def judge(chk, traces, label, seen, flags, selftest=False):
             chk.deviation({"tid": t["tid"], "step": l, "call": [e["op"], e["x"], e["a"], e["b"]],
                            "state_before": brief(t["evs"][l - 2]["s"] if l > 1 else t["s0"]), "state_after": brief(e["s"]),
                            "flags": flags, "replay": dict(t["replay"], step=l)})
+        elif t.get("cut") and not v["viol"]:
+            chk.deviation({"tid": t["tid"], "what": "the next call of the model's walk has nothing to act on in the implementation, "
+                           "yet every recorded step conforms", "call": t["cut"], "state": brief(t["evs"][-1]["s"]),
+                           "replay": t["replay"]})
         elif not unknown:
             chk.traces_validated += 1
 
